@@ -1,13 +1,21 @@
-"""Facts for C19 (argument checking): the two error codes, the code every `raise` statement of
-`handler_invocation` resolves to, behavioural probes of the real `handler_invocation` on every
-well-formed signature with at most two parameters, and fingerprints of the modelled functions.
+"""Facts for C19 (argument checking): the two error codes, the code carried by every exception
+that was OBSERVED leaving `handler_invocation` (grouped by the place in the package that raised
+it), behavioural probes of the real `handler_invocation` on every well-formed signature with at
+most two parameters, and fingerprints of the modelled functions.
 
-Everything is read from the *current* tree: constants by importing it, raise sites by `ast`,
-probes by calling the real function.  The probes are observable behaviour (accepted / RPCError
-code), not `SignatureInfo` internals, so a refactor that keeps the behaviour keeps the facts."""
+Everything is obtained from the *current* tree by running it: constants by importing it, the
+probes and the raise sites by calling the real function and looking at what came out (the
+traceback of the exception names the raising line).  `ast` is used for one thing only, which
+running cannot show: the `raise` statements of `handler_invocation` that NO probe exercised.
+Their code is resolved statically where the expression has a known shape and they are listed -
+never dropped silently - in `unexercised_raises` / `unresolved_raises` (reported in the evidence;
+an unreachable defensive `raise` is not a behaviour and is not a proof obligation).  The probes are
+observable behaviour (accepted / RPCError code), not `SignatureInfo` internals, so a refactor that
+keeps the behaviour keeps the facts."""
 import ast
 import inspect
 import itertools
+import os
 
 from . import common
 
@@ -43,6 +51,9 @@ def well_formed(sig):
     return len(set(names)) == len(names)
 
 
+DEFAULTS = ('=None', '=0', '=7', "=''", '=()', '=False')
+
+
 def source(sig, fname='f', first=None):
     """`def` statement for the signature; the body returns every parameter, so that it cannot
     raise and two calls can be compared.  `first`: an extra leading parameter (for methods);
@@ -53,12 +64,13 @@ def source(sig, fname='f', first=None):
         parts.append(first)
         names.append(first)
         prev = 0 if (sig and sig[0][0] == 0) else 1
-    for k, nm, d in sig:
+    for i, (k, nm, d) in enumerate(sig):
         if prev == 0 and k != 0:
             parts.append('/')
         if k == 3 and prev not in (2, 3):
             parts.append('*')
-        parts.append({0: nm, 1: nm, 2: '*' + nm, 3: nm, 4: '**' + nm}[k] + ('=None' if d else ''))
+        # default values of different truthiness (a default is "there", whatever its value)
+        parts.append({0: nm, 1: nm, 2: '*' + nm, 3: nm, 4: '**' + nm}[k] + (DEFAULTS[i % len(DEFAULTS)] if d else ''))
         names.append(nm)
         prev = k
     if prev == 0:
@@ -123,20 +135,67 @@ def _resolve_raise(node, jsonrpc):
     return None
 
 
-def raise_codes(tree, jsonrpc):
-    """the code carried by every resolvable `raise` statement inside `handler_invocation`, in
-    source order (guards are not interpreted: which code goes with which situation is a
-    behavioural fact, see `no_handler_code` and the probes)"""
+def raise_statements(tree):
+    """[(first line, last line, node)] of the `raise <expr>` statements of `handler_invocation`"""
     fn = common.find(tree, 'handler_invocation')
-    out = []
     if fn is None:
-        return out
-    for node in ast.walk(fn):
-        if isinstance(node, ast.Raise) and node.exc is not None:
-            code = _resolve_raise(node, jsonrpc)
-            if code is not None:
-                out.append((node.lineno, node.col_offset, code))
-    return [c for _, _, c in sorted(out)]
+        return []
+    return sorted(((n.lineno, getattr(n, 'end_lineno', n.lineno), n) for n in ast.walk(fn)
+                   if isinstance(n, ast.Raise) and n.exc is not None), key=lambda t: t[:2])
+
+
+def raise_site(exc, repo):
+    """(file relative to the repo, line, function) of the innermost frame inside the package"""
+    site = None
+    tb = exc.__traceback__
+    root = os.path.realpath(repo) + os.sep
+    while tb is not None:
+        fname = os.path.realpath(tb.tb_frame.f_code.co_filename)
+        if fname.startswith(root):
+            site = (fname[len(root):], tb.tb_lineno, tb.tb_frame.f_code.co_name)
+        tb = tb.tb_next
+    return site
+
+
+def observed_raises(jsonrpc, repo):
+    """{site: set of codes} over the probe grid (and a few larger calls for the plural messages):
+    every exception that left the real `handler_invocation`, by the place that raised it.  A code
+    is the RPCError code, or the exception's class name for anything else."""
+    sites = {}
+
+    def run(handler, args):
+        try:
+            jsonrpc.handler_invocation(handler, jsonrpc.Request('m', args))
+        except Exception as e:      # noqa: BLE001 - every escape is an observation
+            code = int(e.code) if isinstance(e, jsonrpc.RPCError) and isinstance(e.code, int) \
+                else type(e).__name__
+            sites.setdefault(raise_site(e, repo), set()).add(code)
+    run(None, [])
+    run(None, {'a': 1})
+    for n in range(0, 3):
+        for sig in all_signatures(n, PROBE_NAMES):
+            f = make(sig)
+            for kind, a in probe_calls(n):
+                run(f, [None] * a if kind == 'P' else {k: None for k in a})
+    ns = {}
+    exec('def g(a, b, c): return ()', ns)
+    for args in ([], [1], [1, 2, 3, 4, 5], {}, {'a': 1}, {'a': 1, 'b': 2, 'c': 3, 'x': 4, 'y': 5}):
+        run(ns['g'], args)
+    return sites
+
+
+def raise_facts(tree, jsonrpc, repo):
+    """-> (codes observed per raising place, in source order; raise statements of
+    handler_invocation no probe exercised: [(line, statically resolved code or None)])"""
+    sites = observed_raises(jsonrpc, repo)
+    ordered = sorted(sites.items(), key=lambda kv: (kv[0] is None, kv[0] or ()))
+    codes = [c for _site, cs in ordered for c in sorted(cs, key=str)]
+    hit = {ln for site in sites if site is not None and site[0].endswith('jsonrpc.py') for ln in [site[1]]}
+    unexercised = []
+    for lo, hi, node in raise_statements(tree):
+        if not any(lo <= ln <= hi for ln in hit):
+            unexercised.append((lo, _resolve_raise(node, jsonrpc)))
+    return codes, unexercised
 
 
 # ------------------------------------------------------------------ probes
@@ -185,11 +244,21 @@ def extract(repo):
         invalid_args = int(jsonrpc.RPCError.invalid_args('x').code)
     except Exception:
         invalid_args = 0
+    try:
+        codes, unexercised = raise_facts(tree, jsonrpc, repo)
+        raise_error = None
+    except Exception as e:      # noqa: BLE001 - degrade, the probes below carry the behaviour
+        codes, unexercised, raise_error = [], [], f'{type(e).__name__}: {e}'
     return {
         'invalid_args': invalid_args,
         'method_not_found': int(jsonrpc.JSONRPC.METHOD_NOT_FOUND),
         'no_handler_code': observe(jsonrpc, None, []),
-        'raise_codes': raise_codes(tree, jsonrpc),
+        # integer codes observed; anything that is not an RPCError shows as code 1 ("other")
+        'raise_codes': [c if isinstance(c, int) else 1 for c in codes],
+        'raise_other_exceptions': sorted({c for c in codes if not isinstance(c, int)}),
+        'unexercised_raises': [[ln, c] for ln, c in unexercised],
+        'unresolved_raises': [ln for ln, c in unexercised if c is None],
+        'raise_facts_error': raise_error,
         'probes': probes(jsonrpc),
         'fingerprints': common.fingerprints(repo, {
             'aiorpcx/util.py': ['signature_info', 'SignatureInfo'],
@@ -208,7 +277,7 @@ def _int(i):
 
 
 def render(f):
-    sites = ', '.join(_int(c) for c in f['raise_codes'])
+    sites = ', '.join(_int(c) for c in sorted(set(f['raise_codes'])))
     rows = []
     for sig, (named, cnt, names), obs in f['probes']:
         s = '[' + ', '.join(f'({k}, {n}, {_b(d)})' for k, n, d in sig) + ']'
@@ -224,8 +293,8 @@ def render(f):
         f'def methodNotFound : Int := {_int(f["method_not_found"])}\n'
         '/-- code observed from the real `handler_invocation(None, Request("m", []))` -/\n'
         f'def noHandlerCode : Int := {_int(f["no_handler_code"])}\n'
-        '/-- the code carried by every resolvable `raise` statement in `handler_invocation`,\n'
-        '    in source order -/\n'
+        '/-- the distinct codes carried by the exceptions OBSERVED leaving the real\n'
+        '    `handler_invocation` over the probe grid (1 = an exception that is not an RPCError) -/\n'
         f'def raiseCodes : List Int := [{sites}]\n'
         '/-- the real `handler_invocation` on every well-formed signature with <= 2 parameters\n'
         '    (kind rank po=0 pk=1 vp=2 ko=3 vk=4, name, has default) and every call shape\n'
